@@ -261,7 +261,9 @@ class FileDataPdu(AbstractPduBase):
         )[0]
         current_idx += struct_arg_tuple[1]
         if current_idx < end_of_file_data:
-            file_data_packet._params.file_data = data[current_idx:end_of_file_data]
+            # Use the setter so the PDU data field length is re-calculated from the final fields.
+            # Setting the segment metadata above updated it while the file data was still empty.
+            file_data_packet.file_data = data[current_idx:end_of_file_data]
         return file_data_packet
 
     @property
